@@ -130,15 +130,38 @@ def r06_1(rep: Report) -> None:
     g = need(find_func(need(find_class(base, 'RequestHandlerBase'), 'RequestHandlerBase'),
                        'get_http_range'), 'get_http_range')
     L = g.args.args[1].arg
-    ends = [n for n in ast.walk(g) if isinstance(n, (ast.Assign, ast.AnnAssign)) and n.value is not None
-            and norm(n.targets[0] if isinstance(n, ast.Assign) else n.target) == 'end']
-    defaults = [n for n in ends if linear(n.value) is not None and set(linear(n.value)) <= {L, ''}
-                and L in linear(n.value)]
+    # role: the range end is the second component of the tuples the function returns; every value
+    # assigned to it (directly, or element-wise in a tuple assignment, or through one local copy) that
+    # depends on the length alone is a default end
+    from ..core import subst_locals
+    end_names: set[str] = set()
+    for r_ in ast.walk(g):
+        if isinstance(r_, ast.Return) and isinstance(r_.value, ast.Tuple) and len(r_.value.elts) == 4 \
+                and isinstance(r_.value.elts[1], ast.Name):
+            end_names.add(r_.value.elts[1].id)
+    if not end_names:
+        raise AnalysisError('get_http_range: no `return (start, end, status, headers)` with a named end')
+    pairs: list[tuple[ast.AST, ast.AST]] = []
+    for n in ast.walk(g):
+        if isinstance(n, ast.AnnAssign) and n.value is not None and isinstance(n.target, ast.Name) \
+                and n.target.id in end_names:
+            pairs.append((n, n.value))
+        elif isinstance(n, ast.Assign):
+            for t in n.targets:
+                if isinstance(t, ast.Name) and t.id in end_names:
+                    pairs.append((n, n.value))
+                elif isinstance(t, (ast.Tuple, ast.List)) and isinstance(n.value, (ast.Tuple, ast.List)) \
+                        and len(t.elts) == len(n.value.elts):
+                    for te, ve in zip(t.elts, n.value.elts):
+                        if isinstance(te, ast.Name) and te.id in end_names:
+                            pairs.append((n, ve))
+    forms = [(n, linear(v)) for n, v in pairs]
+    defaults = [(n, f) for n, f in forms if f is not None and set(f) <= {L, ''} and L in f]
     gc = 'dashlive/server/requesthandler/base.py::RequestHandlerBase.get_http_range'
-    if defaults and all(linear(n.value) == {L: 1, '': -1} for n in defaults):
+    if defaults and all(f == {L: 1, '': -1} for _n, f in defaults):
         rep.ok(rid, gc, 'open range ends at length - 1', f'{len(defaults)} default end(s)')
     else:
-        bad = [norm(n) for n in defaults if linear(n.value) != {L: 1, '': -1}]
+        bad = [norm(n) for n, f in defaults if f != {L: 1, '': -1}]
         rep.fail(rid, gc, 'open range ends at length - 1',
                  f'an open-ended / suffix range does not end at {L} - 1 ({bad or "no default end found"})', g)
 
